@@ -403,10 +403,20 @@ def execute(case):
             v.add("C06:check-exit-vs-rewrite|-l", "--check -l exit %s, rewritten %s" % (rcl.status(), sorted(W)))
         # ---- json
         rj, _ = run("json", ["--emit", "json"]+ rootargs, plan=out_plan)
-        _judge_json(v, rj.stdout, "json", srcs, orig, T, cwd_abs, sc.root)
+        _judge_json(v, rj.stdout, "json", srcs, orig, T, cwd_abs, sc.root, W=W)
         # ---- checkstyle
         rx, _ = run("checkstyle", ["--emit", "checkstyle"]+ rootargs)
         _judge_checkstyle(v, rx.stdout, "checkstyle", srcs, T, cwd_abs, sc.root)
+        xtext = core.text_of(rx.stdout)
+        for f in sorted(W):
+            mm = [m for m in re.finditer(r'<file name="([^"]*)">(.*?)</file>', xtext, re.S)
+                  if os.path.relpath(os.path.normpath(os.path.join(cwd_abs, xml_unescape(m.group(1)))), sc.root) == f]
+            # (checkstyle lists expected lines only: a rewrite that merely deletes lines has no entry by design; a
+            # rewrite of every line ending must have some)
+            if f in T and not core.abnormal(rx) and _eol_only(orig[f], T[f]) and not any("<error " in m.group(2) for m in mm):
+                v.add("C06:report-silent-on-rewritten-file|checkstyle" + ("|line-endings-only" if _eol_only(orig[f], T[f]) else ""),
+                      "%s is rewritten by files mode but the checkstyle report has no entry for it" % f, file=f)
+                break
         # ---- modified lines (single file: one unnamed report)
         if single:
             rm, _ = run("modified", ["--config", "emit_mode=ModifiedLines"]+ rootargs)
@@ -416,6 +426,9 @@ def execute(case):
                 v.add("C06:modified-lines-unparsable", core.text_of(rm.stdout)[:200])
             elif f in T and apply_chunks(lines_of(_strip_bom(orig[f])), ch) != lines_of(T[f]):
                 v.add("C06:modified-lines-vs-text", "%s: modified-lines report applied to the original does not give the formatted lines" % f)
+            elif f in T and f in W and not ch and not core.abnormal(rm):
+                v.add("C06:report-silent-on-rewritten-file|modified-lines" + ("|line-endings-only" if _eol_only(orig[f], T[f]) else ""),
+                      "%s is rewritten by files mode but the modified-lines report is empty" % f, file=f)
         # ---- coverage: read-only oracle only
         run("coverage", ["--emit", "coverage"]+ rootargs)
         # ---- stdin lane
@@ -470,7 +483,13 @@ def execute(case):
     return v
 
 
-def _judge_json(v, out, tag, srcs, orig, T, cwd_abs, root_abs, stdin_file=None):
+def _eol_only(a, b):
+    """two texts that differ in their line endings (and a BOM) only"""
+    norm = lambda t: _strip_bom(t).replace(b"\r\n", b"\n")
+    return a != b and norm(a) == norm(b)
+
+
+def _judge_json(v, out, tag, srcs, orig, T, cwd_abs, root_abs, stdin_file=None, W=None):
     try:
         doc = json.loads(out.decode("utf-8"))
     except ValueError:
@@ -495,6 +514,10 @@ def _judge_json(v, out, tag, srcs, orig, T, cwd_abs, root_abs, stdin_file=None):
         got = apply_chunks(lines_of(_strip_bom(orig[f])), by.get(f, []))
         if got != lines_of(T[f]):
             v.add("C06:json-report-vs-text|%s" % tag, "%s: json mismatches applied to the original do not give the formatted lines" % f)
+        elif W is not None and f in W and not by.get(f):
+            # the report implies "nothing to change" for a file that files mode rewrites
+            v.add("C06:report-silent-on-rewritten-file|json" + ("|line-endings-only" if _eol_only(orig[f], T[f]) else ""),
+                  "%s is rewritten by files mode (%d -> %d bytes) but the json report lists no mismatch for it" % (f, len(orig[f]), len(T[f])), file=f)
 
 
 def _judge_checkstyle(v, out, tag, srcs, T, cwd_abs, root_abs):
